@@ -471,6 +471,16 @@ def run_case(drv, case):
                 return RUNNERS[case["k"]](drv, case)
             except Skip:
                 return [], None, False
+            except InfraError:
+                raise
+            except Exception as e:  # noqa: BLE001  -- the code under test raised where the property promises a value
+                import traceback
+                where = [f for f in traceback.extract_tb(e.__traceback__) if "/pulser" in f.filename]
+                loc = f"{Path(where[-1].filename).name}:{where[-1].name}" if where else "harness"
+                if not where:
+                    raise
+                return [Fail("real-code-raises", f"{type(e).__name__}: {str(e)[:100]} in {loc}",
+                             dict(kind=case["k"], error=type(e).__name__))], None, True
 
 
 # --------------------------------------------------------------------------
